@@ -41,12 +41,15 @@ class C15(Check):
         "together with the size in cells or a toggle, as documented).  A history of k operations chosen by solver-forked selectors is "
         "applied; after every getter the returned value must equal a fresh computation for the current terminal size and settings "
         "(the same integer quotients as z3 terms), memoized bodies must run at most once per argument tuple until invalidated, and "
-        "results obtained while queries were disabled must be discarded when they are re-enabled."
+        "results obtained while queries were disabled must be discarded when they are re-enabled.  Concurrent first calls: the "
+        "wrapper of utils.cached is translated from the current source (ast) into a micro-op program and every interleaving of the "
+        "caller threads (and an invalidating thread) is decided by a z3 finite-domain BMC query: no schedule runs the body twice for "
+        "one argument tuple; satisfying schedules are replayed on the real decorator with real threads under a controller."
     )
     assumptions = [
         "environment stubs: terminal size getter, TIOCGWINSZ ioctl (pixel size, possibly 0 = unknown), query_terminal (answers with the terminal's identity when queries are enabled, None when disabled; the XTWINOPS fallback gets no answer)",
         "pixel size changes only together with the size in cells or one of the toggles (documented caching per terminal size)",
-        "thread interleavings of concurrent first calls are not explored here (the lock discipline is covered by C14's model)",
+        "thread interleavings (part cached_threads, harness/C15b.py): the control skeleton of utils.cached is translated from the current source into micro-ops and all interleavings of <= 3 (4) caller threads with solver-chosen argument tuples (2 distinct values) and an optional invalidating thread are decided by z3 (finite-domain BMC); re-entrant mutex model of threading.RLock; interleaving granularity = lock operations, cache look-ups / stores, body entry / exit; terminal_size_cached's wrapper is not part of the interleaving model",
     ]
     bounds = {"quick": {"steps": 4}, "thorough": {"steps": 6}}
     max_paths = 200000
@@ -61,7 +64,9 @@ class C15(Check):
         for first in range(len(OPS)):
             for second in range(len(OPS)):
                 out.append({"steps": k, "first": first, "second": second})
-        return out
+        from . import C15b
+
+        return out + C15b.shapes(tier)
 
     def setup(self, shape, concrete):
         import term_image
@@ -71,6 +76,10 @@ class C15(Check):
         self.ti, self.utils, self.common, self.BlockImage = term_image, utils, common, BlockImage
 
     def body(self, eng, shape):
+        if shape.get("part") == "cached_threads":
+            from . import C15b
+
+            return C15b.body(self, eng, shape)
         ti, utils, common = self.ti, self.utils, self.common
         # ---- reset library state
         utils._tty_fd = 99
